@@ -768,3 +768,7 @@ impl From<std::io::Error> for ffi::ParamError {
         ffi::ParamError::ServerBindError
     }
 }
+
+#[cfg(kani)]
+#[path = "/verif/harness/ffi_outstation_mod.rs"]
+mod verif_harness;
